@@ -10,6 +10,8 @@ import MatidGen.Centring
 import MatidGen.WyckoffRule
 import MatidGen.DimRule
 import MatidGen.ClusterRule
+import MatidGen.AnalyzerRule
+import MatidGen.SbcRule
 
 open Matid Matid.Parse
 
@@ -321,6 +323,34 @@ def opCluster (args : List String) : String :=
     | _, _ => "bad-op"
   | _ => "bad-op"
 
+/-- `ahist <v0> <ops: S:<version> | G:<getter> separated by ;>` — history of one SymmetryAnalyzer object; for every getter
+call the versions of the structure its memoised ingredients belong to (a single number = fresh) -/
+def opAHist (args : List String) : String :=
+  open Matid.Analyzer in
+  let rule : Rule := { cached := MatidGen.AnalyzerRule.cachedFields, reset := MatidGen.AnalyzerRule.resetFields,
+                       system := MatidGen.AnalyzerRule.systemFields, resetFirst := MatidGen.AnalyzerRule.resetFirst }
+  match args with
+  | [v0S, opsS] =>
+    let ops? : Option (List (Op × Bool)) := (opsS.splitOn ";").mapM fun o =>
+      match o.splitOn ":" with
+      | ["S", v] => v.toNat?.map fun n => (Op.setSystem n, false)
+      | ["G", g] => match MatidGen.AnalyzerRule.getterFields.find? (fun p => p.1 == g) with
+        | some p => some (Op.get p.2, true)
+        | none => none
+      | _ => none
+    match v0S.toNat?, ops? with
+    | some v0, some ops =>
+      let rec go (s : AState) : List (Op × Bool) → List String
+        | [] => []
+        | (op, isGet) :: rest =>
+          let (s', out) := step rule s op
+          let tags := (out.map (·.2)).foldl (fun acc t => if acc.contains t then acc else acc ++ [t]) []
+          let tags := if tags.isEmpty then [s.sys] else tags
+          (if isGet then ",".intercalate (tags.map toString) else "-") :: go s' rest
+      "|".intercalate (go (init v0) ops)
+    | _, _ => "bad-op"
+  | _ => "bad-op"
+
 section sbc
 open Matid.SBC
 
@@ -395,6 +425,16 @@ def opSbcRun (args : List String) : String :=
     match parseList? parseNat? nums, parseRat? thrS, parseMatrix? nearS, parseMatrix? bS, (if hist == "-" then some [] else (hist.splitOn ";").mapM parseFinder?) with
     | some numbers, some thr, some near, some bonded, some history =>
       let (rem, cs0) := driver numbers history
+      -- the stage order is the one translated from get_clusters; the standard order keeps the set-valued cleaning below
+      match MatidGen.SbcRule.pipelineOrder.mapM Stage.ofString? with
+      | none => "bad-order"
+      | some order =>
+      if order != [Stage.merge, Stage.localize, Stage.clean] then
+        let e : Env := { numbers := numbers, thr := thr, near := matGet near, comps := componentsOf bonded,
+                         pick := fun l => (cleanOne l).head? }
+        let out := (pipeline e order cs0).map fun c => showDots (sortNat c.idx) ++ ":" ++ showDots (sortNat c.species) ++ ":" ++ toString c.rid
+        "rem=" ++ showDots rem ++ " " ++ (if out.isEmpty then "-" else ";".intercalate out)
+      else
       let cs1 := mergeClusters numbers thr cs0
       let idx2 := localize (matGet near) numbers.length (cs1.map (·.idx))
       let out := (cs1.zip idx2).filterMap fun (c, ix) =>
@@ -469,6 +509,7 @@ def step (line : String) : String :=
   | "mincell" :: args => opMinCell args
   | "inertia" :: args => opInertia args
   | "cluster" :: args => opCluster args
+  | "ahist" :: args => opAHist args
   | "sbcmerge" :: args => opSbcMerge args
   | "sbclocalize" :: args => opSbcLocalize args
   | "sbcclean" :: args => opSbcClean args
